@@ -224,7 +224,12 @@ class Harness:
         try:
             if pers and fault == 'none' and not closed_early:
                 w.close()
-            if polled:
+            if case.get('observe') == 'alive':
+                t1 = time.time()
+                while time.time() - t1 < 12 and not dead:
+                    dead = w.is_alive() is False
+                    time.sleep(0.01)
+            elif polled:
                 # a caller polling with short waits and is_alive(): "dead" is whatever the API says first
                 t1 = time.time()
                 while time.time() - t1 < 12 and not dead:
